@@ -15,6 +15,8 @@ import (
 	"path/filepath"
 	"sort"
 	"strings"
+	"sync"
+	"sync/atomic"
 	"time"
 
 	oci "github.com/opencontainers/runtime-spec/specs-go"
@@ -243,6 +245,9 @@ func bgWorker(stage, watched string) {
 	}
 }
 
+// bgDoc rebuilds the document of a background case (documents are not kept in memory).
+var bgDoc func(c Case) any
+
 // runBackground feeds the staged documents to worker subprocesses; a worker that dies is a
 // violation attributed to the document in flight.
 func runBackground(r *hx.Run, root string, docs []Case) {
@@ -267,7 +272,7 @@ func runBackground(r *hx.Run, root string, docs []Case) {
 				for _, enc := range []struct {
 					ext  string
 					data []byte
-				}{{".json", gen.RenderJSON(docs[i].Doc)}, {".yaml", gen.RenderYAML(docs[i].Doc)}} {
+				}{{".json", gen.RenderJSON(bgDoc(docs[i]))}, {".yaml", gen.RenderYAML(bgDoc(docs[i]))}} {
 					_ = os.WriteFile(filepath.Join(stage, fmt.Sprintf("%07d%s", i, enc.ext)), enc.data, 0o644)
 				}
 			}
@@ -378,60 +383,61 @@ func main() {
 			}
 		}
 	}
-	var cases []Case
-	for _, b := range bases {
-		cases = append(cases, Case{Kind: "doc", Base: b.Name, Doc: b.Tree})
-		for _, m := range gen.Confusions(b.Tree) {
-			cases = append(cases, Case{Kind: "doc", Base: b.Name, Mutations: []gen.Mutation{m}, Doc: gen.Apply(b.Tree, m)})
-		}
+	// cases are generated lazily inside the workers (the thorough space does not fit in memory as a list)
+	type job struct {
+		kind   string // base | pairs | bytes | stress
+		bi     int    // base index / stress index / pair row
+		n      int    // byte string length
+		lo, hi int    // byte string index range
 	}
-	nDocs := len(cases)
-	nPairs := 0
+	var jobs []job
+	for bi := range bases {
+		jobs = append(jobs, job{kind: "base", bi: bi})
+	}
+	core := gen.MakeBase(true, "all", []string{"all"}, true, "v/c", false)
+	coreConf := gen.Confusions(core.Tree)
 	if r.Thorough() {
-		core := gen.MakeBase(true, "all", []string{"all"}, true, "v/c", false)
-		cs := gen.Confusions(core.Tree)
-		for i := 0; i < len(cs); i += 3 {
-			for j := i + 1; j < len(cs); j += 5 {
-				if strings.HasPrefix(cs[j].Where, cs[i].Where) || strings.HasPrefix(cs[i].Where, cs[j].Where) {
-					continue
-				}
-				cases = append(cases, Case{Kind: "doc", Base: core.Name, Mutations: []gen.Mutation{cs[i], cs[j]}, Doc: gen.Apply(core.Tree, cs[i], cs[j])})
-				nPairs++
-			}
+		for i := 0; i < len(coreConf); i += 3 {
+			jobs = append(jobs, job{kind: "pairs", bi: i})
 		}
 	}
-	// (b) byte strings
 	L := 3
 	if r.Thorough() {
 		L = 4
 	}
-	nBytes := 0
-	for n := 0; n <= L; n++ {
-		total := 1
+	pow := func(n int) int {
+		t := 1
 		for i := 0; i < n; i++ {
-			total *= len(structural)
+			t *= len(structural)
 		}
-		for i := 0; i < total; i++ {
-			b := make([]byte, n)
-			x := i
-			for k := 0; k < n; k++ {
-				b[k] = structural[x%len(structural)]
-				x /= len(structural)
+		return t
+	}
+	for n := 0; n <= L; n++ {
+		for lo := 0; lo < pow(n); lo += 4096 {
+			hi := lo + 4096
+			if hi > pow(n) {
+				hi = pow(n)
 			}
-			cases = append(cases, Case{Kind: "bytes", Bytes: b, Printable: fmt.Sprintf("%q", b)})
-			nBytes++
+			jobs = append(jobs, job{kind: "bytes", n: n, lo: lo, hi: hi})
 		}
 	}
-	// (c) stress
 	st := stressDocs()
-	cases = append(cases, st...)
-
-	r.Rule = fmt.Sprintf("(a) %d base documents x every member position (present members, absent optional members, first/last list elements, one unknown member per object) x an 18-value type-confusion domain "+
+	for i := range st {
+		jobs = append(jobs, job{kind: "stress", bi: i})
+	}
+	var nDocs, nPairs, nBytes atomic.Int64
+	// documents also fed to the background goroutine: (base, confusion index) references, -1 = the base itself
+	type docRef struct{ bi, mi int }
+	var bgRefs []docRef
+	var bgMu sync.Mutex
+	mkRule := func() string {
+		return fmt.Sprintf("(a) %d base documents x every member position (present members, absent optional members, first/last list elements, one unknown member per object) x an 18-value type-confusion domain "+
 		"(absent, null, strings, 0, -1, 2^32, 2^63, below int64, 1.5, true, [], [null], [\"\"], [[]], [{}], {}, {x:null}, deep nesting): %d documents (+%d confusion pairs), JSON and YAML, through ParseSpec, ReadSpec, cache Refresh and every query, "+
 		"MinimumRequiredVersion/ValidateVersion, schema ValidateData/ValidateReader/ReadAndValidate/ValidateFile/Validate, and - when the document loads - InjectDevices/ApplyEdits of every device into %d OCI spec shapes; "+
 		"(b) every byte string of length 0..%d over %d structural bytes (%d strings); (c) %d stress documents; (d) documents of (a) loaded by the watcher goroutine of an auto-refresh cache in worker subprocesses. "+
 		"Oracle: no panic, no process death, a file that does not load has a cache error entry. Distinct by construction; every case is non-trivial (it is executed against all entry points)",
-		len(bases), nDocs, nPairs, len(ociShapes), L, len(structural), nBytes, len(st))
+			len(bases), nDocs.Load(), nPairs.Load(), len(ociShapes), L, len(structural), nBytes.Load(), len(st))
+	}
 	r.Assumptions = []string{"hangs: every call is bounded by the run watchdog; a stuck case is reported as an infrastructure error (exit 2), not silently skipped",
 		"parser/annotation string inputs are swept by C07/C15 (a panic there is also a C08 violation)", "queue overflow of inotify is out of scope"}
 
@@ -456,36 +462,108 @@ func main() {
 			}
 		}
 	}()
-	r.ParallelL(int64(len(cases)), func(i int64, l *hx.Local) {
+	r.ParallelL(int64(len(jobs)), func(i int64, l *hx.Local) {
 		w := <-workers
-		c := cases[i]
-		res := w.eval(c)
-		workers <- w
-		select {
-		case progress <- struct{}{}:
-		default:
-		}
-		l.Record(res, func() any {
-			if c.Kind == "doc" {
-				return map[string]any{"base": c.Base, "mutations": c.Mutations, "outcome": res.Outcome}
+		defer func() { workers <- w }()
+		jb := jobs[i]
+		run := func(c Case) {
+			res := w.eval(c)
+			select {
+			case progress <- struct{}{}:
+			default:
 			}
-			return map[string]any{"kind": c.Kind, "bytes": c.Printable, "stress": c.Stress, "outcome": res.Outcome}
-		})
+			l.Record(res, func() any {
+				if c.Kind == "doc" {
+					return map[string]any{"base": c.Base, "mutations": c.Mutations, "outcome": res.Outcome}
+				}
+				return map[string]any{"kind": c.Kind, "bytes": c.Printable, "stress": c.Stress, "outcome": res.Outcome}
+			})
+		}
+		switch jb.kind {
+		case "base":
+			b := bases[jb.bi]
+			var refs []docRef
+			run(Case{Kind: "doc", Base: b.Name, Doc: b.Tree})
+			refs = append(refs, docRef{jb.bi, -1})
+			nDocs.Add(1)
+			for mi, m := range gen.Confusions(b.Tree) {
+				run(Case{Kind: "doc", Base: b.Name, Mutations: []gen.Mutation{m}, Doc: gen.Apply(b.Tree, m)})
+				nDocs.Add(1)
+				if (r.Thorough() && mi%2 == 0) || mi%4 == 0 || strings.Contains(m.Class, "list-of-null") {
+					refs = append(refs, docRef{jb.bi, mi})
+				}
+			}
+			bgMu.Lock()
+			bgRefs = append(bgRefs, refs...)
+			bgMu.Unlock()
+		case "pairs":
+			a := coreConf[jb.bi]
+			for j := jb.bi + 1; j < len(coreConf); j += 5 {
+				b := coreConf[j]
+				if strings.HasPrefix(b.Where, a.Where) || strings.HasPrefix(a.Where, b.Where) {
+					continue
+				}
+				run(Case{Kind: "doc", Base: core.Name, Mutations: []gen.Mutation{a, b}, Doc: gen.Apply(core.Tree, a, b)})
+				nPairs.Add(1)
+			}
+		case "bytes":
+			for x0 := jb.lo; x0 < jb.hi; x0++ {
+				b := make([]byte, jb.n)
+				x := x0
+				for k := 0; k < jb.n; k++ {
+					b[k] = structural[x%len(structural)]
+					x /= len(structural)
+				}
+				run(Case{Kind: "bytes", Bytes: b, Printable: fmt.Sprintf("%q", b)})
+				nBytes.Add(1)
+			}
+		case "stress":
+			run(st[jb.bi])
+		}
 	})
 	close(stopWatchdog) // the background phase has its own per-document deadlines
 	// (d) background goroutine
-	var bg []Case
-	for i, c := range cases[:nDocs] {
-		if r.Thorough() || i%4 == 0 || len(c.Mutations) == 0 || strings.Contains(c.Mutations[0].Class, "list-of-null") {
-			bg = append(bg, c)
+	sort.Slice(bgRefs, func(i, j int) bool {
+		if (bgRefs[i].mi < 0) != (bgRefs[j].mi < 0) {
+			return bgRefs[i].mi < 0
 		}
+		if bgRefs[i].bi != bgRefs[j].bi {
+			return bgRefs[i].bi < bgRefs[j].bi
+		}
+		return bgRefs[i].mi < bgRefs[j].mi
+	})
+	confCache := map[int][]gen.Mutation{}
+	var bg []Case
+	for _, ref := range bgRefs {
+		b := bases[ref.bi]
+		if ref.mi < 0 {
+			bg = append(bg, Case{Kind: "doc", Base: b.Name, Doc: b.Tree})
+			continue
+		}
+		if confCache[ref.bi] == nil {
+			confCache = map[int][]gen.Mutation{ref.bi: gen.Confusions(b.Tree)} // keep one base's list at a time
+		}
+		m := confCache[ref.bi][ref.mi]
+		bg = append(bg, Case{Kind: "doc", Base: b.Name, Mutations: []gen.Mutation{m}}) // the document is rebuilt when it is staged
 	}
-	sort.SliceStable(bg, func(i, j int) bool { return len(bg[i].Mutations) < len(bg[j].Mutations) })
+	docOf := func(c Case) any {
+		if c.Doc != nil {
+			return c.Doc
+		}
+		for _, b := range bases {
+			if b.Name == c.Base {
+				return gen.Apply(b.Tree, c.Mutations...)
+			}
+		}
+		return nil
+	}
+	bgDoc = docOf
 	runBackground(r, root, bg)
-	r.Extra["documents"] = nDocs
-	r.Extra["byte_strings"] = nBytes
+	r.Extra["documents"] = nDocs.Load()
+	r.Extra["byte_strings"] = nBytes.Load()
 	r.Extra["stress_documents"] = len(st)
 	r.Extra["background_documents"] = len(bg)
+	r.Rule = mkRule()
 	os.RemoveAll(root)
 	r.Finish()
 }
